@@ -50,6 +50,16 @@ def plan(tier):
                         continue  # integral cross-unit comparison needs head-room in the (finer) common point unit
                     inst.append({"id": iid, "desc": f"arith {su},{du}:{r} mixed={mixed}", "code": f'vfp9::run_arith<{su}, {du}, {r}, {mixed}>(ID, "arith {su},{du}:{r} mixed={mixed}", {args}, nrandom, seed ^ ID);'})
                     iid += 1
+    # the everyday temperature pairs, integral reps, every run (and therefore in the C++20 build: point <=>)
+    libd = {u[0]: u for u in LIB}
+    for a_, b_ in [("au::Celsius", "au::Kelvins"), ("au::Kelvins", "au::Celsius"), ("au::Celsius", "au::Fahrenheit"), ("au::Milli<au::Kelvins>", "au::Celsius"), ("au::Fahrenheit", "au::Kelvins")]:
+        (su, ss, so), (du, ds, do) = libd[a_], libd[b_]
+        scale = ss / ds
+        off = (so - do) / ds
+        args = f"{scale.numerator}LL, {scale.denominator}LL, {off.numerator}LL, {off.denominator}LL"
+        for r in ("int64_t", "int32_t"):
+            inst.append({"id": iid, "desc": f"arith {su},{du}:{r} mixed=true", "code": f'vfp9::run_arith<{su}, {du}, {r}, true>(ID, "arith {su},{du}:{r} mixed=true", {args}, nrandom, seed ^ ID);'})
+            iid += 1
     # explicit-rep conversions across rep classes (floating source -> integral target of every width, and back) for a few unit pairs
     cross = [("float", "int64_t"), ("float", "int32_t"), ("double", "int64_t"), ("double", "int32_t"), ("float", "uint64_t"), ("int32_t", "double"), ("int64_t", "float"), ("float", "double"), ("double", "float"),
              ("int32_t", "int64_t"), ("int64_t", "int32_t"), ("uint32_t", "int32_t"), ("uint32_t", "int64_t"), ("uint64_t", "int64_t"), ("uint16_t", "int32_t")]
@@ -65,7 +75,7 @@ def plan(tier):
             inst.append({"id": iid, "desc": f"{su}:{r} -> {du}:{t}", "code": f'vfp9::run_convert<{su}, {r}, {du}, {t}, false>(ID, "{su}:{r} -> {du}:{t}", {args}, nrandom, seed ^ ID);'})
             iid += 1
     # point +- quantity with different units and reps (incl. unsigned displacement reps narrower than the point's rep)
-    shift_reps = [("double", "uint32_t"), ("uint64_t", "uint32_t"), ("int64_t", "uint32_t"), ("int64_t", "int32_t"), ("int32_t", "int32_t"), ("double", "int32_t"), ("float", "double"), ("uint32_t", "uint32_t"),
+    shift_reps = [("int32_t", "double"), ("int32_t", "int64_t"), ("uint32_t", "double"), ("double", "uint32_t"), ("uint64_t", "uint32_t"), ("int64_t", "uint32_t"), ("int64_t", "int32_t"), ("int32_t", "int32_t"), ("double", "int32_t"), ("float", "double"), ("uint32_t", "uint32_t"),
                   ("int64_t", "uint16_t"), ("double", "uint64_t"), ("float", "uint32_t"), ("int32_t", "int16_t"), ("uint64_t", "uint64_t"), ("double", "float")]
     spairs = [(a, b) for a in units for b in units]
     rnd.shuffle(spairs)
@@ -78,7 +88,10 @@ def plan(tier):
             integral = r1 in ("int32_t", "int64_t", "uint32_t", "uint64_t") or not r1[0] in "fd"
             if (r1[0] not in "fd" or r2[0] not in "fd") and max(k.numerator, k.denominator) > 100:
                 continue
-            inst.append({"id": iid, "desc": f"shift {pu}:{r1} +- {qu}:{r2}", "code": f'vfp9::run_shift<{pu}, {r1}, {qu}, {r2}>(ID, "shift {pu}:{r1} +- {qu}:{r2}", {k.numerator}LL, {k.denominator}LL, nrandom, seed ^ ID);'})
+            off = (qo - po) / ps
+            if max(abs(off.numerator), off.denominator) > 10 ** 7:
+                continue
+            inst.append({"id": iid, "desc": f"shift {pu}:{r1} +- {qu}:{r2}", "code": f'vfp9::run_shift<{pu}, {r1}, {qu}, {r2}>(ID, "shift {pu}:{r1} +- {qu}:{r2}", {k.numerator}LL, {k.denominator}LL, {off.numerator}LL, {off.denominator}LL, nrandom, seed ^ ID);'})
             iid += 1
         n_shift += 1
         if n_shift >= (14 if tier == "quick" else 120):
@@ -189,7 +202,7 @@ def run(chk, which="C09"):
     dropped = []
     jobs = [(si, sh, fl, "c++14") for fl in flav for si, sh in enumerate(shards)]
     # the C++20-only forms (point <=>) : a slice of the shards in quick, all of them in thorough
-    jobs += [(si, [x for x in sh if "run_arith" in x["code"]], "G_trap", "c++20") for si, sh in enumerate(shards) if tier != "quick" or si < 6]
+    jobs += [(si, [x for x in sh if "run_arith" in x["code"] and (tier != "quick" or "mixed=true" in x["code"])], "G_trap", "c++20") for si, sh in enumerate(shards)]
     jobs = [j for j in jobs if j[1]]
     results = core.pmap(lambda j: (j[2] + ":" + j[3], build_and_run(j[0], j[1], decls, j[2], nrandom, dropped, std=j[3])), jobs)
     core.reach(chk, emit_tu([x for x in insts if x["id"] not in {d["id"] for d in dropped}][::9][:40], decls), [[40, 1]], std="c++20")
